@@ -108,9 +108,20 @@ def _extract_variables_and_expression(
     expression = None
     if len(expression_list) > 0:
         expression = (
-            and_(*expression_list) if len(expression_list) > 1 else expression_list[0]
+            and_(*expression_list)
+            if len(expression_list) > 1
+            else _as_condition(expression_list[0])
         )
     return selected_variables, expression
+
+
+def _as_condition(condition: ConditionType) -> SymbolicExpression:
+    """
+    A plain value given as a condition (a bool constant) is a literal that is read by its truth value.
+    """
+    if not isinstance(condition, SymbolicExpression):
+        condition = Literal(condition)
+    return condition
 
 
 DomainType = Union[Iterable, None]
@@ -180,7 +191,7 @@ def and_(*conditions: ConditionType):
     :return: An AND operator joining the conditions.
     :rtype: SymbolicExpression
     """
-    return chained_logic(AND, *conditions)
+    return chained_logic(AND, *map(_as_condition, conditions))
 
 
 def or_(*conditions):
@@ -192,7 +203,7 @@ def or_(*conditions):
     :return: An OR operator joining the conditions.
     :rtype: SymbolicExpression
     """
-    return chained_logic(optimize_or, *conditions)
+    return chained_logic(optimize_or, *map(_as_condition, conditions))
 
 
 def not_(operand: SymbolicExpression):
